@@ -238,6 +238,7 @@ template <unsigned MASK> static void hist(unsigned steps)
 Q q_hist2() { hist<OPS_ALL>(2); }
 Q q_hist3() { hist<OPS_ALL>(3); }
 Q q_hist4() { hist<OPS_ALL>(4); }
+Q q_hist5() { hist<OPS_ALL>(5); }
 Q q_hist3_core() { hist<OPS_CORE>(3); }
 Q q_hist3_conv() { hist<OPS_CONV>(3); }
 Q q_hist4_core() { hist<OPS_CORE>(4); }
